@@ -79,6 +79,8 @@ type kvSession struct {
 	dirty                    map[string]string // bucket/key -> "del" | "newput" | "put"
 	skipped                  int
 	recreated                bool
+	stoppedEarly             bool
+	stoppedEarlyDirty        bool
 }
 
 func newKVSession(name string) (*kvSession, error) {
@@ -114,6 +116,45 @@ func (s *kvSession) checkAll(step int, op KVOp) error {
 		got, want := kvm.Collect(b), s.model.Iter(bn)
 		if !kvm.EqualKVs(got, want) {
 			return fmt.Errorf("[%s] after step %d %+v: Iter(%s) = %s, model %s", s.be.Name, step, op, bn, kvm.FormatKVs(got), kvm.FormatKVs(want))
+		}
+		// an iteration the consumer stops early: exactly `stop` distinct pairs
+		// of the model are handed over and nothing after the consumer said stop
+		// (the order of pairs is not part of the contract: MemDB has none)
+		for stop := 1; stop <= len(want); stop++ {
+			var seen []kvm.KV
+			calls, after := 0, 0
+			b.Iter()(func(k, v []byte) bool {
+				calls++
+				if calls > stop {
+					after++
+					return false
+				}
+				seen = append(seen, kvm.KV{K: append([]byte(nil), k...), V: append([]byte(nil), v...)})
+				return calls < stop
+			})
+			if after > 0 {
+				return fmt.Errorf("[%s] after step %d %+v: Iter(%s) stopped by the consumer after %d of %d pairs called it %d more time(s)", s.be.Name, step, op, bn, stop, len(want), after)
+			}
+			if len(seen) != stop {
+				return fmt.Errorf("[%s] after step %d %+v: Iter(%s) stopped after %d pairs handed over %d (model has %d)", s.be.Name, step, op, bn, stop, len(seen), len(want))
+			}
+			kvm.SortKVs(seen)
+			j := 0
+			for _, kv := range seen {
+				for j < len(want) && !(bytes.Equal(want[j].K, kv.K) && bytes.Equal(want[j].V, kv.V)) {
+					j++
+				}
+				if j == len(want) {
+					return fmt.Errorf("[%s] after step %d %+v: Iter(%s) stopped after %d pairs yielded %s, not distinct pairs of the model %s", s.be.Name, step, op, bn, stop, kvm.FormatKVs(seen), kvm.FormatKVs(want))
+				}
+				j++
+			}
+			if stop < len(want) {
+				s.stoppedEarly = true
+				if len(s.dirty) > 0 {
+					s.stoppedEarlyDirty = true
+				}
+			}
 		}
 	}
 	return nil
@@ -226,6 +267,12 @@ func runKVOn(backend string, c C17Case, cs *kit.CaseStats) (err error) {
 	if s.recreated {
 		cs.Class("create-of-existing-bucket-refused")
 	}
+	if s.stoppedEarly {
+		cs.Class("iteration-stopped-early")
+	}
+	if s.stoppedEarlyDirty {
+		cs.Class("iteration-stopped-early-with-unflushed-writes")
+	}
 	return nil
 }
 
@@ -249,7 +296,7 @@ var c17Assumptions = []string{
 
 var c17Prop = kit.Prop[C17Case]{
 	ID:          "C17",
-	Rule:        "rapid operation sequences (1..24 ops: create (also of existing buckets), put, delete, flush, cancel, crash-reopen over 2 buckets × 4 keys × 4 values, one of them zero-length) run on MemDB, CacheDB(MemDB), CacheDB(CacheDB(MemDB)), Bolt and CacheDB(Bolt) next to a committed-map+overlay model; after (most) steps every key is read and every bucket iterated on every backend and compared with the model. Non-trivial = a read or iteration that follows an unflushed delete of a committed key or an unflushed put of a new key; distinct by hash of the sequence.",
+	Rule:        "rapid operation sequences (1..24 ops: create (also of existing buckets), put, delete, flush, cancel, crash-reopen over 2 buckets × 4 keys × 4 values, one of them zero-length) run on MemDB, CacheDB(MemDB), CacheDB(CacheDB(MemDB)), Bolt and CacheDB(Bolt) next to a committed-map+overlay model; after (most) steps every key is read and every bucket iterated — fully, and stopped by the consumer after each possible number of pairs — on every backend and compared with the model. Non-trivial = a read or iteration that follows an unflushed delete of a committed key or an unflushed put of a new key; distinct by hash of the sequence.",
 	Assumptions: c17Assumptions,
 	Gen:         genC17,
 	Run:         runC17,
